@@ -49,8 +49,10 @@ fn delay_for(cfg: &Cfg, attempt: usize) -> u64 {
 pub fn gen(rng: &mut Prng) -> Cfg {
     // now and then a wide fan-out: more attempts than any small internal buffer would hold
     let wide = rng.chance(0.05);
-    let max = if wide { rng.range(17, 24) as usize } else { rng.range(1, 4) as usize };
-    let delay = match if wide { 5 + rng.below(2) * 4 - rng.below(2) * 4 } else { rng.below(10) } {
+    // "as many hedges as it takes": an extreme but valid attempt limit (one of the first few attempts succeeds)
+    let huge = !wide && rng.chance(0.02);
+    let max = if huge { *rng.pick(&[usize::MAX, usize::MAX >> 3, (usize::MAX >> 3) + 1]) } else if wide { rng.range(17, 24) as usize } else { rng.range(1, 4) as usize };
+    let delay_any = match if wide { 5 + rng.below(2) * 4 - rng.below(2) * 4 } else { rng.below(10) } {
         0 => Delay::Default,
         1..=4 => Delay::Fixed(*rng.pick(&[0u64, 10_000, 50_000])),
         5..=6 => Delay::NoDelay,
@@ -64,6 +66,9 @@ pub fn gen(rng: &mut Prng) -> Cfg {
             Delay::Table(t)
         }
     };
+    // an unlimited number of attempts only makes sense with a real delay between them (in parallel mode the
+    // layer would start them all at once)
+    let delay = if huge { Delay::Fixed(*rng.pick(&[10_000u64, 50_000])) } else { delay_any };
     let d = match &delay {
         Delay::Default => 1_000_000,
         Delay::Fixed(d) if *d > 0 => *d,
@@ -75,7 +80,7 @@ pub fn gen(rng: &mut Prng) -> Cfg {
     let fail_bias = *rng.pick(&[0.3, 0.6, 0.9]);
     let mut reqs = vec![];
     for _ in 0..n {
-        let script = (0..max)
+        let script = (0..max.min(6))
             .map(|_| {
                 let lat = match rng.below(9) {
                     0 => Lat::Us(0),
@@ -91,7 +96,11 @@ pub fn gen(rng: &mut Prng) -> Cfg {
                 (lat, !rng.chance(fail_bias))
             })
             .collect::<Vec<_>>();
-        let script = if wide {
+        let script = if huge {
+            // fail fast until attempt k, which succeeds; the probe repeats the last step
+            let k = rng.range(0, 3) as usize;
+            (0..=k).map(|j| (Lat::Us(if j == k { d / 2 } else { 0 }), j == k)).collect()
+        } else if wide {
             // a burst of immediate results, the one success (if any) among the late ones
             let ok_at = if rng.chance(0.8) { Some(max - 1 - rng.below(3) as usize) } else { None };
             (0..max).map(|k| (if rng.chance(0.8) { Lat::Us(0) } else { Lat::Us(d) }, Some(k) == ok_at)).collect()
